@@ -132,11 +132,15 @@ class DelayModel:
         if self.dist == "normal":
             s = default_rng(self.seed).normal(mu, sigma, n)
         elif self.dist == "poisson":
-            s = default_rng().poisson(mu, int(runtime / self.degree))
+            s = default_rng(self.seed).poisson(mu, n)
         else:
-            s = default_rng().uniform()
+            s = default_rng(self.seed).uniform(mu, mu + sigma, n)
 
         var = s[s > mu]
+        if len(var) == 0:
+            # No sample exceeds the runtime (always the case for a runtime
+            # of 0): there is no delay to add.
+            return runtime
         rand_var = var[int(len(var)/2)]
         return rand_var
 
